@@ -111,7 +111,9 @@ func (b *Builder) TextShowGlyphs(seq *font.GlyphSeq) float64 {
 		}
 
 		b.emit(content.OpTextShowArray, out)
-		out = out[:0]
+		// the emitted operator keeps the array: start a new one instead of
+		// reusing its storage
+		out = nil
 	}
 
 	xActual := 0.0
